@@ -28,7 +28,13 @@ MANIFEST = dict(
           "unchanged (C10_setmut_confined, C10_writes_confined); two tables share an object only if it is the class-level "
           "default of neutron (C10_mutable_disjoint_partial), for which the full statement is REFUTED "
           "(C10_mutable_disjoint_refuted = known finding C10:neutron-default-object-shared); the former failing histories "
-          "are proved isolated (C10_former_witnesses_isolated).  Tie: one fresh interpreter per history (interleavings per "
+          "are proved isolated (C10_former_witnesses_isolated); the tracked identities include what hangs below a served "
+          "object - the numpy array of Xray.sftable (allocated per Xray object on first access; the translator checks "
+          "Xray._gettable and fails closed on a cached/shared array), magnetic_ff entries, activation records "
+          "(C10_tracked_subobjects, C10_xray_mutation_confined).  A Mutate event overwrites in place the served object and "
+          "every mutable object a user reaches from it (attributes, dict values, list items, magnetic_ff[charge], activation "
+          "records, the sftable / nsf_table arrays - arrays are really overwritten) and the panel includes values computed "
+          "from them (xray_sld of the element and of an ion, water, magnetic j0).  Tie: one fresh interpreter per history (interleavings per "
           "group up to length 3, the nine inits in random order relative to public touches, directed isolation scenarios, "
           "random interleavings with one or two private tables incl. assignments and mutations, in thorough witnesses of "
           "the model's transitions); every event's outcome compared with the model inside coqc; direct evaluation of the "
